@@ -116,6 +116,14 @@ class Interp:
                 if v is TOP or c is None or c <= 0 or v.k: return TOP
                 return Val(v.a, v.b * c, 0, v.trunc, v.src)
             if op in ("Add", "AddWithOverflow", "AddUnchecked"):
+                # x / c + (x % c != 0)  ==  x.div_ceil(c)
+                for q, r in ((a, b), (b, a)):
+                    if q[0] == "bin" and q[1] == "Div":
+                        c = const_of(simplify(q[3]))
+                        if c is not None and c > 0 and self._rem_nonzero(f, r, simplify(q[2]), c):
+                            v = self.eval(f, simplify(q[2]), depth + 1)
+                            if v is TOP or v.k: return TOP
+                            return Val(v.a + (c - 1) * v.b, v.b * c, 0, v.trunc, v.src)
                 v = self.eval(f, a, depth + 1); c = const_of(b)
                 if v is TOP: v = self.eval(f, b, depth + 1); c = const_of(a)
                 if v is TOP or c is None or v.k: return TOP
@@ -123,12 +131,44 @@ class Interp:
             if op in ("Mul", "MulWithOverflow"):
                 return TOP
             return TOP
+        if k == "field" and o[1][0] == "downcast" and o[1][2] == "Ok":
+            # the Ok payload of a checked conversion: the converted value itself (the Err side is somebody else's alternative)
+            inner = simplify(o[1][1])
+            if inner[0] == "call" and (inner[2] or "").rsplit("::", 1)[-1] == "try_from":
+                return self.eval(f, inner, depth + 1)
+            return TOP
         if k == "phi":
+            alts = [simplify(a) for a in o[2]]
+            big = [a for a in alts if const_of(a) is not None and const_of(a) >= 2**31]
+            rest = [a for a in alts if a not in big]
+            if len(big) == 1 and len(rest) == 1 and rest[0][0] == "field" and rest[0][1][0] == "downcast" and rest[0][1][2] == "Ok":
+                # match T::try_from(x) { Ok(v) => v, Err(_) => T::MAX }: the saturating fallback written out
+                v = self.eval(f, rest[0], depth + 1)
+                if v is TOP: return TOP
+                return Val(v.a, v.b, v.k, False, v.src)
             vals = [self.eval(f, a, depth + 1) for a in o[2]]
             if any(v is TOP for v in vals): return TOP
             if len(set((v.a, v.b, v.k, v.trunc) for v in vals)) == 1: return vals[0]
             return TOP
         return TOP
+
+    def _rem_nonzero(self, f, o, x, c):
+        """o is `(x % c != 0)` converted to an integer (as / from / into)"""
+        o = simplify(o)
+        for _ in range(6):
+            if o[0] == "cast": o = simplify(o[1]); continue
+            if o[0] == "call" and (o[2] or "").rsplit("::", 1)[-1] in ("from", "into"):
+                t = f.term(o[1])
+                if len(t["args"]) != 1: return False
+                o = simplify(trace_operand(f, t["args"][0])); continue
+            break
+        if o[0] != "bin": return False
+        op, l, r = o[1], simplify(o[2]), simplify(o[3])
+        if op == "Ne" or op == "Gt":
+            rem, z = (l, r)
+            if const_of(rem) is not None and op == "Ne": rem, z = r, l
+            return const_of(z) == 0 and rem[0] == "bin" and rem[1] == "Rem" and simplify(rem[2]) == x and const_of(simplify(rem[3])) == c
+        return False
 
     def eval_fn(self, g, depth=0):
         """abstract value returned by helper g for the Some(d) case; requires that the None case returns const 0"""
